@@ -344,6 +344,7 @@ class ResourceAnalysis:
                 # distinguish them (a guard that forgot to look at the queue): keep QE / op / t in every row
                 keep = set(used) | {'QE', 'op', 't'} | ({'exposed'} if v.get('exposed') else set())
                 if not v['QE'] and ({'front', 'back'} & set(used)): keep |= {'front', 'back'}      # which entry is touched is judged against both ends
+                if not v['QE'] and v['t'] == 'Read': keep |= {'back'}          # whether a reader may be merged depends on the back entry, whether or not the code looks at it
                 sig = tuple((k, v[k]) for k in sorted(keep) if k in v)
                 if sig in seen: continue
                 seen[sig] = True
